@@ -509,6 +509,7 @@ const (
 	classStall  = "broadcaster/close-with-stalled-subscriber"
 	classMulti  = "broadcaster/overlapping-close"
 	classSlow   = "broadcaster/slow-staying-reader"
+	classBehind = "broadcaster/common-order-with-backed-up-stayer"
 )
 
 func classOf(s scen) string {
@@ -693,6 +694,21 @@ func scaledScenarios() []hx.Scenario {
 			}
 		}
 	}
+	// a staying reader that falls more than the buffer behind: SIX values from
+	// one thread against a reader that takes one value per millisecond (buffer 2
+	// + the forwarder's hand: from the 4th value on Broadcast has to wait for
+	// it), alone or next to a prompt reader: exactly once, one common order
+	// extending the order of the calls
+	for si, ss := range [][]sub{{{kind: 'd', delay: time.Millisecond}}, {{kind: 'd', delay: time.Millisecond}, {kind: 'p'}}, {{kind: 'p'}, {kind: 'd', delay: time.Millisecond}}, {{kind: 'd', delay: time.Hour}}} {
+		before := len(out)
+		add(scen{bcs: values([]int{6}), subs: ss, closeAt: -1, class: classBehind}, true, 2, 3, si > 1)
+		if len(out) > before {
+			prio[len(prio)-1] = 0
+			if si <= 1 {
+				out[len(out)-1].QuickMin = hx.Ptr(1)
+			}
+		}
+	}
 	// two and three Close calls from different threads, overlapping the first
 	// one ('o') or following it ('a'), where the first Close has something to
 	// wait for: a Broadcast parked on a stalled reader that leaves later (4
@@ -859,6 +875,18 @@ func trueSizeScenarios(capacity int) []hx.Scenario {
 				}
 			}
 		}
+	}
+	// a staying reader more than the real buffer behind and a burst of further
+	// values (14): exactly once, one common order
+	for si, ss := range [][]sub{{{kind: 'd', delay: time.Millisecond}}, {{kind: 'd', delay: time.Millisecond}, {kind: 'p'}}} {
+		s := scen{bcs: values([]int{capacity + 4}), subs: ss, closeAt: -1, class: classBehind}
+		sc := s
+		out = append(out, hx.Scenario{
+			Name: fmt.Sprintf("cap%d %s", capacity, s.name()), Class: classOf(s),
+			ThoroughOnly: si > 0,
+			Opts:         mc.Options{Delay: true, MinBound: 1, Bound: 2, MaxSteps: 20000, AutoClock: true, ClockLast: true, Horizon: 48 * time.Hour},
+			Mk:           func() *mc.Exec { return mkExec(sc) },
+		})
 	}
 	// a slow staying reader with the real buffer (10) + 1 outstanding
 	for _, d := range []time.Duration{2*time.Second + 1, time.Hour} {
